@@ -8,7 +8,46 @@ use crate::subject::{Obs, Subject};
 use crate::value::Value;
 
 pub fn check_one(s: &dyn Subject, ctx: &Ctx, rep: &mut DeclReport, raw: &Value, obs: &Obs, via: &str) {
-    let spec = s.spec();
+    check_one_spec(s.spec(), ctx, rep, raw, obs, via)
+}
+
+/// The first bound-like validator with its bound replaced by `l` (bounds read from a run-time cell).
+fn with_bound(spec: &Spec, l: i64) -> Spec {
+    let mut sp = spec.clone();
+    for v in sp.vals.iter_mut() {
+        let conv = |old: &Value| match old {
+            Value::I(_) => Value::I(l as i128),
+            Value::U(_) => Value::U(l as u128),
+            Value::F32(_) => Value::F32((l as f32).to_bits()),
+            Value::F64(_) => Value::F64((l as f64).to_bits()),
+            o => o.clone(),
+        };
+        match v {
+            Val::Less(b) => { *v = Val::Less(conv(b)); break; }
+            Val::LessEq(b) => { *v = Val::LessEq(conv(b)); break; }
+            Val::Greater(b) => { *v = Val::Greater(conv(b)); break; }
+            Val::GreaterEq(b) => { *v = Val::GreaterEq(conv(b)); break; }
+            Val::LenMax(_) => { *v = Val::LenMax(l as u128); break; }
+            Val::LenMin(_) => { *v = Val::LenMin(l as u128); break; }
+            _ => {}
+        }
+    }
+    sp
+}
+
+fn raw_near(spec: &Spec, x: i64) -> Option<Value> {
+    Some(match &spec.fam {
+        Fam::Int { signed: true, .. } => Value::I(x as i128),
+        Fam::Int { signed: false, bits: 128 } => if x >= 0 { Value::U(x as u128) } else { return None },
+        Fam::Int { signed: false, .. } => if x >= 0 { Value::I(x as i128) } else { return None },
+        Fam::F32 => Value::F32((x as f32).to_bits()),
+        Fam::F64 => Value::F64((x as f64).to_bits()),
+        Fam::Str => if x >= 0 { Value::Str("a".repeat(x as usize)) } else { return None },
+        _ => return None,
+    })
+}
+
+pub fn check_one_spec(spec: &Spec, ctx: &Ctx, rep: &mut DeclReport, raw: &Value, obs: &Obs, via: &str) {
     let exp = ctx.oracle.ctor(spec, raw);
     rep.executions += 1;
     let changed = exp.sanitized != *raw;
@@ -129,6 +168,31 @@ pub fn run(s: &dyn Subject, ctx: &Ctx) -> Option<DeclReport> {
             check_one(s, ctx, &mut rep, &raw, &obs, "ctor");
         }
         rep.exhaustive.push((format!("f32 bit patterns {a:#x}..{b:#x} (slice {}/{} of all 2^32)", ctx.part, ctx.parts), b - a));
+    }
+    // bounds read from a run-time cell: every call must compare against what the expression denotes at that call
+    if let (Some(seq), false, None) = (spec.tag_value("poke"), ctx.sweep_slice_only.get(), &ctx.only_input) {
+        let lims: Vec<i64> = seq.split(',').filter_map(|x| x.parse().ok()).collect();
+        for (k, l) in lims.iter().enumerate() {
+            if !s.poke(*l) {
+                rep.violate("harness:poke-unavailable", String::new(), String::new(), String::new(), String::new());
+                break;
+            }
+            let sp2 = with_bound(spec, *l);
+            let mut near: Vec<i64> = (*l - 2..=*l + 2).collect();
+            near.extend(lims.iter().flat_map(|m| [*m - 1, *m, *m + 1]));
+            for x in near {
+                if let Some(raw) = raw_near(spec, x) {
+                    let obs = s.ctor(&raw);
+                    check_one_spec(&sp2, ctx, &mut rep, &raw, &obs, "ctor-after-bound-change");
+                }
+            }
+            if k > 0 {
+                rep.guard("runtime_cell_changed");
+            }
+        }
+        if let Some(first) = lims.first() {
+            s.poke(*first);
+        }
     }
     // const-evaluated constructor results must agree with the run-time constructor and the oracle
     let consts = if ctx.sweep_slice_only.get() { vec![] } else { s.const_results() };
